@@ -66,7 +66,10 @@ class Data:
         wf = self.wform = cfg.get("weights", "none")   # none | scalar | array | pair
         self.wt = None
         if wf in ("array", "pair"):
-            if cfg.get("wreal"):
+            if cfg.get("wvals"):
+                # concrete weights per configuration (structure); validity stays symbolic
+                self.wt = [RV(x) for x in cfg["wvals"]]
+            elif cfg.get("wreal"):
                 self.wt = [z3.Real("w%d" % r) for r in range(N)]
                 for t in self.wt:
                     eng.assume(t >= 0)
